@@ -45,6 +45,8 @@ class Structure:
                 for j, f in enumerate(s.get('final', ())):
                     if f['op'] == 'spawn_into':
                         self._spawn(act, idx + ('f', j), f)
+                    elif f['op'] == 'raise':
+                        self.raises[f['eid']] = f.get('cls', 'E')
             elif op == 'cleanup':
                 self._steps(act, idx + ('b',), s.get('body', ()))
                 self._steps(act, idx + ('f',), s.get('final', ()))
